@@ -264,7 +264,7 @@ macro_rules! c01_g {
             let (f, s) = (gray8(), gray8());
             kani::assume(f != s);
             $( {
-                let st = $shape.into_styled($style(f, s));
+                let st = $shape.into_styled(($style)(f, s));
                 note!("styled", st);
                 let big = Rectangle::new(Point::new(-100000, -100000), Size::new(200000, 200000));
                 let mut a = NProbe::<Gray8>::new(q, big);
